@@ -39,6 +39,9 @@ CONSTANTS N, C,          \* chain config
           Endrs,         \* configured endorsers (isEndorser)
           MaxMsgs,       \* history length bound
           Alpha,         \* message alphabet (set of Act records)
+          VerifyCarried, \* FALSE: the code as it is (carried endorser entries of a commit message are taken unverified);
+                         \* TRUE: entries that are not signatures of the named endorser are dropped on admission
+                         \*       (patches/fix-C41-verify-carried-endorsements.patch)
           EmitOn
 
 VARIABLES props, es, cm, sigE, sigC, sigD, hist
@@ -173,9 +176,10 @@ Eff(a, P, E, M) ==
            IF I # {}
            THEN LET m == M[CHOOSE i \in I : TRUE]
                 IN Res(IF m.p = a.p /\ m.e = a.e THEN "ok" ELSE "dup", P, E, M)
-           ELSE Res("ok", P,
-                    AddE(AddAll(E, a.sg \cup a.sf, a.p, a.e, a.sg), a.x, [p |-> a.p, e |-> a.e, g |-> TRUE], TRUE),
-                    Append(M, [c |-> a.x, p |-> a.p, e |-> a.e, S |-> a.sg \cup a.sf]))
+           ELSE LET S == IF VerifyCarried THEN a.sg ELSE a.sg \cup a.sf IN
+                Res("ok", P,
+                    AddE(AddAll(E, S, a.p, a.e, a.sg), a.x, [p |-> a.p, e |-> a.e, g |-> TRUE], TRUE),
+                    Append(M, [c |-> a.x, p |-> a.p, e |-> a.e, S |-> S]))
       [] OTHER ->        \* BE / BC: the message's own signature does not verify, it never reaches the pool
            Res("rej", P, E, M)
 
